@@ -6,8 +6,9 @@ Writes <scratch>/gen/Gen_Spawns.v (record spawns_consts of Spawns/Model.v), cons
 Anything not recognised is rendered as a value that makes spawns_consts_ok false, with a note.
 """
 import json, os, re
-from .translate import strip_comments, func_body, c_unescape, cpp_value, STR, write_sidecars
+from .translate import strip_comments, c_unescape, cpp_value, STR, write_sidecars
 from .core import coq_bytes, hexs
+from .cshape import same_shape
 
 SRC = "src/filter/exclude_spawns_of.c"
 
@@ -21,6 +22,27 @@ BAD = {"sp_sep": 0, "sp_lparen": 0, "sp_rparen": 0, "sp_path_fmt": b"", "sp_scan
        "sp_read_adj": 0, "sp_size_min": 999, "sp_path_max": 0, "sp_pass": 0, "sp_drop": 0,
        "sp_strtok_delim_is_sep": False, "sp_left_first": False, "sp_right_last": False, "sp_reject_empty": True,
        "sp_start_parent": False, "sp_loop_while_nonzero": False, "sp_cmp_exact": False, "sp_drop_iff_found": False}
+
+# the modelled shape of the filter function (compared by symbolic execution, vlib/cshape.py: any rewrite with the same set of
+# paths - inverted guard, single exit with a result variable, if/else instead of ?:, merged declarations - is the same shape)
+REFERENCE_FILTER_FN = """
+int snoopy_filter_exclude_spawns_of (char const * const arg)
+{
+    char  *argDup;
+    char **losp;
+    int is_ancestor_in_list = 0;
+    argDup = strdup(arg);
+    losp = string_to_token_array(argDup);
+    if (losp == NULL) {
+        free(argDup);
+        return SNOOPY_FILTER_PASS;
+    }
+    is_ancestor_in_list = find_ancestor_in_list(losp);
+    free(losp);
+    free(argDup);
+    return (is_ancestor_in_list == 1) ? SNOOPY_FILTER_DROP : SNOOPY_FILTER_PASS;
+}
+"""
 
 # what the translator looks for, per field (quoted in the diagnosis when it is not found)
 EXPECT = {
@@ -68,6 +90,15 @@ def _match_brace(txt, i):
                 return j + 1
         j += 1
     return None
+
+
+def func_body(src, name):
+    """body of the DEFINITION of `name` (a line that starts with the return type), never a call site such as `if (name(x)) {`"""
+    m = re.search(r"^[ \t]*[A-Za-z_][\w \t\*]*?\b" + re.escape(name) + r"\s*\([^;{()]*\)\s*\{", src, re.M)
+    if not m:
+        return None
+    end = _match_brace(src, m.end() - 1)
+    return src[m.end():end - 1] if end else None
 
 
 def loops_to_while(body):
@@ -201,13 +232,14 @@ def tr_spawns(run):
     commbuf = array_size("st_comm_buf", fb)
     pathbuf = array_size("stat_path", fb)
     v["sp_buf_size"] = buf
-    m = re.search(r"fread\s*\(\s*st_buf\s*,\s*1\s*,\s*([^,]+?)\s*,\s*statf\s*\)", fb)
-    rd = val(m.group(1)) if m else None
+    m = re.search(r"\b(\w+)\s*=\s*(?:\(\s*int\s*\)\s*)?fread\s*\(\s*st_buf\s*,\s*1\s*,\s*([^,]+?)\s*,\s*(\w+)\s*\)\s*;", fb)
+    nread = m.group(1) if m else "rc"
+    rd = val(m.group(2)) if m else None
     v["sp_read_adj"] = (buf - rd) if (buf is not None and rd is not None and buf >= rd) else None
-    m = re.search(r"if\s*\(\s*rc\s*<\s*([^)]+?)\s*\)\s*\{\s*return\s+-1\s*;", fb)
-    v["sp_size_min"] = val(m.group(1)) if m else None
-    if not re.search(r"st_buf\s*\[\s*rc\s*\]\s*=\s*'\\0'\s*;", fb):
-        notes.append("translator: spawns: st_buf[rc] = 0 not found")
+    m2 = re.search(r"if\s*\(\s*" + nread + r"\s*<\s*([^)]+?)\s*\)\s*\{\s*return\s+-1\s*;", fb)
+    v["sp_size_min"] = val(m2.group(1)) if m2 else None
+    if not re.search(r"st_buf\s*\[\s*" + nread + r"\s*\]\s*=\s*(?:'\\0'|0)\s*;", fb):
+        notes.append("translator: spawns: find_ancestor_in_list: statement not recognised: st_buf[<fread result>] = '\\0';")
         v["sp_read_adj"] = None
     m = re.search(r"snprintf\s*\(\s*stat_path\s*,\s*([^,]+?)\s*,\s*" + STR + r"\s*,\s*ppid\s*\)", fb)
     if m:
@@ -226,7 +258,7 @@ def tr_spawns(run):
         notes.append("translator: spawns: NULL test of left/right not recognised")
         v["sp_left_first"] = None
     # length window
-    if re.search(r"\blen\s*=\s*right\s*-\s*left\s*-\s*1\s*;", fb) and re.search(r"\bsize_t\s+len\s*;", fb):
+    if re.search(r"\blen\s*=\s*right\s*-\s*left\s*-\s*1\s*;", fb) and re.search(r"\bsize_t\s+len\s*[;=]", fb):
         m = re.search(r"if\s*\(\s*((?:right\s*<\s*left\s*\|\|\s*)?len[^{]*?)\)\s*\{\s*return\s+-1\s*;", fb)
         cond = re.sub(r"\s+", "", m.group(1)) if m else ""
         m1 = re.fullmatch(r"len<=0\|\|len>=(.+)", cond)                  # empty names rejected (size_t: len <= 0 is len == 0)
@@ -238,8 +270,8 @@ def tr_spawns(run):
     if not (re.search(r"memcpy\s*\(\s*st_comm_buf\s*,\s*left\s*\+\s*1\s*,\s*len\s*\)\s*;", fb) and re.search(r"st_comm_buf\s*\[\s*len\s*\]\s*=\s*'\\0'\s*;", fb)):
         notes.append("translator: spawns: copy of the command (memcpy + terminator) not recognised")
         v["sp_comm_max"] = None
-    m = re.search(r"rc\s*=\s*sscanf\s*\(\s*right\s*\+\s*1\s*,\s*" + STR + r"\s*,\s*&\s*st_state\s*,\s*&\s*ppid\s*\)\s*;\s*if\s*\(\s*rc\s*!=\s*2\s*\)\s*\{\s*return\s+-1\s*;", fb)
-    v["sp_scan_fmt"] = c_unescape(m.group(1)) if m else None
+    m = re.search(r"\b(\w+)\s*=\s*sscanf\s*\(\s*right\s*\+\s*1\s*,\s*" + STR + r"\s*,\s*&\s*st_state\s*,\s*&\s*ppid\s*\)\s*;\s*if\s*\(\s*(?:\1\s*!=\s*2|2\s*!=\s*\1)\s*\)\s*\{\s*return\s+-1\s*;", fb)
+    v["sp_scan_fmt"] = c_unescape(m.group(2)) if m else None
     if not re.search(r"\bpid_t\s+ppid\s*;", fb):
         v["sp_scan_fmt"] = None
     # start query and loop
@@ -256,26 +288,57 @@ def tr_spawns(run):
     codes_ok = bool(found_ret) and rets.count("1") == 1 and bool(rets) and rets[-1] == "0" and rets.count("0") == 1 and all(r in ("1", "0", "-1") for r in rets)
     # comparison
     sb = loops_to_while(func_body(src, "find_string_in_array") or "")
+    E = None
+    mc = re.search(r"strcmp\s*\(\s*([^,()]+?)\s*,\s*([^,()]+?)\s*\)", sb)
+    if mc:
+        a_, b_ = mc.group(1).strip(), mc.group(2).strip()
+        E = b_ if a_ == "str" else a_ if b_ == "str" else None
+    walk_ok = False
+    if E:
+        Ee = re.escape(E).replace(r"\ ", r"\s*")
+        CMP = r"strcmp\s*\(\s*(?:str\s*,\s*" + Ee + r"|" + Ee + r"\s*,\s*str)\s*\)"
+        cmp_ok = bool(re.search(r"if\s*\(\s*(?:" + CMP + r"\s*==\s*0|0\s*==\s*" + CMP + r"|!\s*" + CMP + r")\s*\)\s*\{\s*return\s+1\s*;", sb))
+        loop_ok = bool(re.search(r"while\s*\(\s*(?:" + Ee + r"\s*!=\s*NULL|NULL\s*!=\s*" + Ee + r"|" + Ee + r")\s*\)", sb))
+        # the element expression walks str_array from its first slot, one slot per round
+        mp = re.fullmatch(r"\*\s*(\w+)", E)
+        mi = re.fullmatch(r"str_array\s*\[\s*(\w+)\s*\]", E)
+        INCV = r"(?:%s\s*\+\+|\+\+\s*%s|%s\s*\+=\s*1)\s*;"
+        if mp and mp.group(1) == "str_array":
+            walk_ok = bool(re.search(INCV % (("str_array",) * 3), sb))
+        elif mp:
+            pv = mp.group(1)
+            walk_ok = bool(re.search(r"\b" + pv + r"\s*=\s*str_array\s*;", sb)) and bool(re.search(INCV % ((pv,) * 3), sb))
+        elif mi:
+            iv = mi.group(1)
+            walk_ok = bool(re.search(r"\b" + iv + r"\s*=\s*0\s*;", sb)) and bool(re.search(INCV % ((iv,) * 3), sb))
+    else:
+        cmp_ok = loop_ok = False
     cmp_shape = [
-        ("if (strcmp(str, *p) == 0) { return 1; }", bool(re.search(r"if\s*\(\s*(?:strcmp\s*\(\s*str\s*,\s*\*p\s*\)\s*==\s*0|0\s*==\s*strcmp\s*\(\s*str\s*,\s*\*p\s*\)|!\s*strcmp\s*\(\s*str\s*,\s*\*p\s*\))\s*\)\s*\{\s*return\s+1\s*;", sb))),
-        ("while (*p != NULL) { ... p++; } over str_array (for or while form)", bool(re.search(r"while\s*\(\s*(?:\*p\s*!=\s*NULL|NULL\s*!=\s*\*p|\*p)\s*\)", sb))),
-        ("no other comparison function (strncmp, strcasecmp, strstr, memcmp) in find_string_in_array", not re.search(r"strn?casecmp|strncmp|strstr|memcmp", sb)),
+        ("if (strcmp(str, <element>) == 0) { return 1; }", cmp_ok),
+        ("while (<element> != NULL) { ... } (for or while form) over the same <element> (*p, str_array[i] or *str_array)", loop_ok),
+        ("<element> starts at the first slot of str_array and advances by one per round", walk_ok),
+        ("no other comparison function (strncmp, strcasecmp, strstr, memcmp) and exactly one strcmp in find_string_in_array",
+         not re.search(r"strn?casecmp|strncmp|strstr|memcmp|strnlen", sb) and len(re.findall(r"\bstrcmp\b", sb)) == 1),
+        ("find_string_in_array returns only 1 (match) and 0", set(re.findall(r"return\s+([^;]+);", sb)) <= {"1", "0"}),
     ]
     v["sp_cmp_exact"] = all(okk for _, okk in cmp_shape)
     for what, okk in cmp_shape:
         if not okk:
             notes.append("translator: spawns: find_string_in_array: statement not recognised: %s" % what)
     # verdict mapping
-    mb = func_body(src, "snoopy_filter_exclude_spawns_of") or ""
-    tern = re.search(r"return\s*\(\s*is_ancestor_in_list\s*==\s*1\s*\)\s*\?\s*SNOOPY_FILTER_DROP\s*:\s*SNOOPY_FILTER_PASS\s*;", mb)
-    early = re.search(r"if\s*\(\s*losp\s*==\s*NULL\s*\)\s*\{[^}]*return\s+SNOOPY_FILTER_PASS\s*;", mb)
-    call = re.search(r"is_ancestor_in_list\s*=\s*find_ancestor_in_list\s*\(\s*losp\s*\)\s*;", mb)
+    ok_shape, why_shape = same_shape(src, "snoopy_filter_exclude_spawns_of", REFERENCE_FILTER_FN)
+    if not ok_shape:
+        # the statements that decide the verdict, textually (tolerates another way of making the private copy of arg)
+        mb = func_body(src, "snoopy_filter_exclude_spawns_of") or ""
+        ok_shape = bool(re.search(r"return\s*\(\s*is_ancestor_in_list\s*==\s*1\s*\)\s*\?\s*SNOOPY_FILTER_DROP\s*:\s*SNOOPY_FILTER_PASS\s*;", mb)) \
+            and bool(re.search(r"if\s*\(\s*losp\s*==\s*NULL\s*\)\s*\{[^}]*return\s+SNOOPY_FILTER_PASS\s*;", mb)) \
+            and bool(re.search(r"is_ancestor_in_list\s*=\s*find_ancestor_in_list\s*\(\s*losp\s*\)\s*;", mb)) \
+            and bool(re.search(r"\blosp\s*=\s*string_to_token_array\s*\(\s*argDup\s*\)\s*;", mb)) \
+            and len(re.findall(r"\breturn\b", mb)) == 2 and not re.search(r"\bstatic\b", mb)
     verdict_shape = [
-        ("return (is_ancestor_in_list == 1) ? SNOOPY_FILTER_DROP : SNOOPY_FILTER_PASS;", bool(tern)),
-        ("if (losp == NULL) { ... return SNOOPY_FILTER_PASS; }", bool(early)),
-        ("is_ancestor_in_list = find_ancestor_in_list(losp);", bool(call)),
-        ("find_ancestor_in_list returns 1 only behind `found = find_string_in_array(st_comm_buf, name_list); if (found)`, 0 only at the end, -1 elsewhere", codes_ok),
-        ("exactly two return statements in snoopy_filter_exclude_spawns_of", len(re.findall(r"\breturn\b", mb)) == 2),
+        ("snoopy_filter_exclude_spawns_of has the paths of: dup = strdup(arg); l = string_to_token_array(dup); if (l == NULL) { free(dup); return PASS; } "
+         "r = find_ancestor_in_list(l); free(l); free(dup); return (r == 1) ? DROP : PASS;  [%s]" % (why_shape or ""), ok_shape),
+        ("find_ancestor_in_list returns 1 only behind a successful find_string_in_array(st_comm_buf, name_list), 0 only at the end, -1 elsewhere", codes_ok),
     ]
     v["sp_drop_iff_found"] = all(bool(okk) for _, okk in verdict_shape)
     for what, okk in verdict_shape:
